@@ -3,10 +3,10 @@ From Coq Require Import ZArith List Bool.
 From SpyneV Require Import Base.Prelude C12.Model C12.Corr C12.Text C12.Writers Gen.ConcText.
 
 Lemma text_is_model_text :
-  g_wsdl = text_wsdl Repaired /\ g_get = text_get /\ g_build = text_build /\
-  g_attrs = text_attrs Repaired /\ g_validate = text_validate Repaired /\
-  g_memo = text_memo /\ g_sort = text_sort /\ g_cdict = text_cdict /\ g_side = true.
-Proof. repeat split; reflexivity. Qed.
+  sk_equiv g_wsdl (text_wsdl Repaired) && sk_equiv g_get text_get && sk_equiv g_build text_build &&
+  sk_equiv g_attrs (text_attrs Repaired) && sk_equiv g_validate (text_validate Repaired) &&
+  sk_equiv g_memo text_memo && sk_equiv g_sort text_sort && sk_equiv g_cdict text_cdict && g_side = true.
+Proof. vm_compute. reflexivity. Qed.
 
 Lemma text_paths : paths_ok Repaired g_wsdl g_attrs g_validate g_memo g_sort = true.
 Proof. vm_compute. reflexivity. Qed.
